@@ -85,6 +85,7 @@ IPow(b, e) == IF e = 0 THEN 1 ELSE b * IPow(b, e - 1)
 IsReflection(a) == /\ a[1][1][1] > 0
                    /\ MatMul(a[1], a[1]) = MatScale(a[2] * a[2], IdMat(Dim))
                    /\ Trace(a[1]) = (Dim - 2) * a[2]
+NotRefl(a) == Fits(a[1], a[1]) => ~IsReflection(a)
 \* the wall recovered from the matrix alone: every column of M - d I is a multiple of the normal
 NormalOf(a) == LET D == [i \in 1..Dim |-> [j \in 1..Dim |-> a[1][i][j] - (IF i = j THEN a[2] ELSE 0)]]
                    j == CHOOSE j \in 1..Dim : Col(D, j) # Zero /\ \A k \in 1..(j - 1) : Col(D, k) = Zero
@@ -96,7 +97,8 @@ ProjTo(u, x) == Prim(VSub(VScale(MNorm(u), x), VScale(MDot(x, u), u)))
 InteriorTest == {x \in TestPts : MNorm(x) < 0}
 IdealCand == {x \in Box(Dim, 2) : x[1] > 0 /\ IsPrim(x) /\ MNorm(x) = 0}
              \cup {x \in TestPts : MNorm(x) = 0}
-             \cup {Pad(<<5, 4, 3>>), Pad(<<5, 0 - 3, 0 - 4>>), Pad(<<13, 5, 12>>), Pad(<<3, 2, 2, 1>>), Pad(<<3, 1, 0 - 2, 2>>)}
+             \cup {Pad(<<5, 4, 3>>), Pad(<<5, 0 - 3, 0 - 4>>), Pad(<<13, 5, 12>>)}
+             \cup (IF N >= 3 THEN {Pad(<<3, 2, 2, 1>>), Pad(<<3, 1, 0 - 2, 2>>)} ELSE {})
 \* ideal endpoints of the geodesic u^perp of H^2, rational iff <u,u> is a perfect square
 GeoEnds(u) == IF N = 2 /\ MaxAbsV(u) <= 3000 /\ IsSq(MNorm(u))
               THEN LET a == u[1]
@@ -133,7 +135,7 @@ Rep(t) == IF t[1] > t[2] THEN Am ELSE Ap
 Conj(c, t) == Mul(c, Mul(t, Inv(c)))
 ConjSafe(c, t) == SafeMul(t, c) /\ SafeMul(c, Mul(t, Inv(c)))
 
-Probe == TestPts \cup {E1}
+Probe == TestPts \cup {E1, Ap, Am}
          \cup (IF N >= 3 THEN {Pad(<<2, 0, 0, 1>>), Pad(<<1, 0, 0, 1>>), Pad(<<0, 0, 0, 1>>), Pad(<<3, 0, 0, 0 - 2>>)} ELSE {})
          \cup (IF N >= 4 THEN {Pad(<<3, 0, 0, 2, 2>>), Pad(<<3, 0, 0, 1, 1>>), Pad(<<3, 1, 0, 1, 1>>)} ELSE {})
 InBall(x) == MNorm(x) <= 0
@@ -168,31 +170,33 @@ NextFix == /\ \/ \E a \in ExactAtoms : Left(a)
               \/ Invert
            /\ UNCHANGED wall
 
-\* laws of the derived isometries in the current state (evaluated whenever the products fit in 32 bits)
-EllLaw(t) == LET C == Conj(g, Ell(t)) IN
-  (ConjSafe(g, Ell(t)) /\ \A x \in Probe : FitsV(C[1], Img(g, x))) =>
-     /\ FixedBy(C, Img(g, E1))
-     /\ \A x \in Probe : FixedBy(C, Img(g, x)) <=> (x[2] = 0 /\ x[3] = 0)        \* the fixed set is g.{x2 = x3 = 0}
-     /\ \A x \in Probe : NormFits(Img(g, x)) =>                                   \* ... i.e. the orthogonal complement
-           /\ MDot(Img(g, x), Img(g, EV(2))) = g[2] * g[2] * x[2]                  \*     of g.e2, g.e3 (emitted as perp)
-           /\ MDot(Img(g, x), Img(g, EV(3))) = g[2] * g[2] * x[3]
-     /\ ~IsReflection(C)
-LoxLaw(t) == LET C == Conj(g, LoxOf(t))
-                 ya == Img(g, Attr(t))
-                 yr == Img(g, Rep(t))
-             IN
-  (ConjSafe(g, LoxOf(t)) /\ NormFits(ya) /\ NormFits(yr) /\ FitsN(MaxAbs(C[1]), Hi(t) * (MaxAbsV(ya) + MaxAbsV(yr)))
-   /\ \A x \in Probe : FitsV(C[1], Img(g, x))) =>
+\* laws of the derived isometries in the current state (evaluated whenever the products fit in 32 bits);
+\* gi[x] = d * g.x for the probe points, pb bounds their entries
+EllLaw(t, gi, pb) == LET C == Conj(g, Ell(t)) IN
+  (ConjSafe(g, Ell(t)) /\ FitsN(MaxAbs(C[1]), pb)) =>
+     /\ FixedBy(C, gi[E1])
+     /\ \A x \in Probe : FixedBy(C, gi[x]) <=> (x[2] = 0 /\ x[3] = 0)             \* the fixed set is g.{x2 = x3 = 0}
+     /\ NotRefl(C)
+\* ... i.e. the Minkowski-orthogonal complement of g.e2, g.e3 (emitted as `perp`)
+PerpLaw(gi) == \A x \in Probe : NormFits(gi[x]) =>
+                  /\ MDot(gi[x], Img(g, EV(2))) = g[2] * g[2] * x[2]
+                  /\ MDot(gi[x], Img(g, EV(3))) = g[2] * g[2] * x[3]
+LoxLaw(t, gi, pb) ==
+  LET C == Conj(g, LoxOf(t))
+      ya == gi[Attr(t)]
+      yr == gi[Rep(t)]
+  IN
+  (ConjSafe(g, LoxOf(t)) /\ NormFits(ya) /\ NormFits(yr) /\ FitsN(MaxAbs(C[1]), Hi(t) * pb)) =>
      /\ MNorm(ya) = 0 /\ MNorm(yr) = 0 /\ Prim(ya) # Prim(yr)
      /\ VScale(Lo(t), MatVec(C[1], ya)) = VScale(Hi(t) * C[2], ya)                \* eigenvalue Hi/Lo > 1: attracting
      /\ VScale(Hi(t), MatVec(C[1], yr)) = VScale(Lo(t) * C[2], yr)                \* eigenvalue Lo/Hi < 1: repelling
-     /\ \A x \in Probe : (InBall(x) /\ Prim(x) \notin {Ap, Am}) => Prim(Img(C, Img(g, x))) # Prim(Img(g, x))
-     /\ ~IsReflection(C)
-ParaLaw(k) == LET C == Conj(g, ParaOf(k)) IN
-  (ConjSafe(g, ParaOf(k)) /\ NormFits(Img(g, Ap)) /\ \A x \in Probe : FitsV(C[1], Img(g, x))) =>
-     /\ FixedBy(C, Img(g, Ap)) /\ MNorm(Img(g, Ap)) = 0
-     /\ \A x \in Probe : (InBall(x) /\ Prim(x) # Ap) => Prim(Img(C, Img(g, x))) # Prim(Img(g, x))   \* the only one in the closed ball
-     /\ ~IsReflection(C)
+     /\ \A x \in Probe : (InBall(x) /\ Prim(x) \notin {Ap, Am}) => Prim(Img(C, gi[x])) # Prim(gi[x])
+     /\ NotRefl(C)
+ParaLaw(k, gi, pb) == LET C == Conj(g, ParaOf(k)) IN
+  (ConjSafe(g, ParaOf(k)) /\ NormFits(gi[Ap]) /\ FitsN(MaxAbs(C[1]), pb)) =>
+     /\ FixedBy(C, gi[Ap]) /\ MNorm(gi[Ap]) = 0
+     /\ \A x \in Probe : (InBall(x) /\ Prim(x) # Ap) => Prim(Img(C, gi[x])) # Prim(gi[x])   \* the only one in the closed ball
+     /\ NotRefl(C)
 ReflLaw(v) == LET C == Conj(g, Refl(v))
                  u == Img(g, v)
              IN
@@ -201,17 +205,17 @@ ReflLaw(v) == LET C == Conj(g, Refl(v))
      /\ IsReflection(C) /\ NormalOf(C) = Prim(u) /\ MNorm(u) > 0
      /\ MatVec(C[1], u) = VScale(0 - C[2], u)
      /\ \A w \in WallPts(Prim(u)) : NormFits(w) => (MDot(w, u) = 0 /\ InBall(w) /\ (FitsV(C[1], w) => FixedBy(C, w)))
-FixLaws == (exact /\ Tame(g)) =>
-  /\ \A t \in EllAngles : EllLaw(t)
-  /\ \A t \in LoxParams : LoxLaw(t)
-  /\ \A k \in ParaParams : ParaLaw(k)
-  /\ \A v \in ReflTargets : ReflLaw(v)
-\* how many of the laws were actually evaluated in this state (reported, not required)
-LawsEvaluated == IF exact /\ Tame(g)
-  THEN [ell |-> Cardinality({t \in EllAngles : ConjSafe(g, Ell(t)) /\ \A x \in Probe : FitsV(Conj(g, Ell(t))[1], Img(g, x))}),
-        lox |-> Cardinality({t \in LoxParams : ConjSafe(g, LoxOf(t)) /\ \A x \in Probe : FitsV(Conj(g, LoxOf(t))[1], Img(g, x))}),
-        para |-> Cardinality({k \in ParaParams : ConjSafe(g, ParaOf(k)) /\ \A x \in Probe : FitsV(Conj(g, ParaOf(k))[1], Img(g, x))})]
-  ELSE [ell |-> 0, lox |-> 0, para |-> 0]
+LawState == exact /\ Tame(g)
+FixLaws == LawState =>
+  LET gi == [x \in Probe |-> Img(g, x)]
+      pb == Dim * MaxAbs(g[1]) * 5                     \* entries of the probe points are at most 5
+  IN /\ \A t \in EllAngles : EllLaw(t, gi, pb)
+     /\ PerpLaw(gi)
+     /\ \A t \in LoxParams : LoxLaw(t, gi, pb)
+     /\ \A k \in ParaParams : ParaLaw(k, gi, pb)
+     /\ \A v \in ReflTargets : ReflLaw(v)
+ASSUME \A x \in Probe : MaxAbsV(x) <= 5
+ASSUME {E1, Ap, Am} \subseteq Probe
 
 \* the expected fixed data of the current state, read by the harness
 ReflObs(v) == LET u == Prim(Img(g, v)) IN [v |-> v, normal |-> u, wallpts |-> WallPts(u), ends |-> GeoEnds(u)]
@@ -223,8 +227,7 @@ FixObs ==
         para |-> Act(g, Ap),
         refl |-> {ReflObs(v) : v \in ReflTargets},
         isrefl |-> IsReflection(g),
-        normal |-> IF IsReflection(g) THEN NormalOf(g) ELSE <<>>,
-        laws |-> LawsEvaluated]
+        normal |-> IF IsReflection(g) THEN NormalOf(g) ELSE <<>>]
   ELSE [g |-> g, kind |-> kind, len |-> len, tame |-> (kind = "coset" /\ Tame(g)), size |-> MaxAbs(g[1]), origin |-> Act(g, E1)]
 ObsFix == PrintT("OBS " \o ToJson(FixObs))
 ASSUME PrintT("TARGETS " \o ToJson([ell |-> EllAngles, para |-> ParaParams]))
